@@ -84,4 +84,43 @@ def linesAt (sk : List (Nat × String × String)) (depth : Nat) (kinds : List St
 def cellLoop (sk : List (Nat × String × String)) : List (Nat × String × String) :=
   ((sk.dropWhile fun l => !(l.1 == 1 && l.2.1 == "for")).drop 1).takeWhile fun l => decide (2 ≤ l.1)
 
+/-! ### the writer, interpreted from the extracted guarded writes -/
+
+/-- The atoms the writer's guards test. -/
+def evalAtom (caps : Caps) (cn cl : CursorState) (a : String) : Bool :=
+  if a = "cursorLast.visible" then cl.visible
+  else if a = "cursorNext.visible" then cn.visible
+  else if a = "caps.synchronizedUpdate" then caps.sync
+  else if a = "cursorNext.row!=cursorLast.row" then decide (cn.row ≠ cl.row)
+  else if a = "cursorNext.col!=cursorLast.col" then decide (cn.col ≠ cl.col)
+  else if a = "cursorNext.style!=cursorLast.style" then decide (cn.style ≠ cl.style)
+  else false
+
+def evalGuard (caps : Caps) (cn cl : CursorState) (g : List (Bool × String)) : Bool :=
+  g.all fun a => if a.1 then !(evalAtom caps cn cl a.2) else evalAtom caps cn cl a.2
+
+/-- What a write argument puts on the wire (mode numbers: `Props.C01Seq.mode_numbers`). -/
+def writeToks (cn : CursorState) (w : String) : List Tok :=
+  if w = "" then []
+  else if w = "decrst(cursorVisibility)" then [.decrst 25]
+  else if w = "decset(synchronizedUpdate)" then [.decset 2026]
+  else if w = "decrst(synchronizedUpdate)" then [.decrst 2026]
+  else if w = "sgrReset" then [.sgr []]
+  else if w = "showCursor()" then showCursorToks cn
+  else [.other w]
+
+/-- All guarded writes whose guard holds, in order. -/
+def runGuarded (caps : Caps) (cn cl : CursorState) (l : List (List (Bool × String) × String)) : List Tok :=
+  l.flatMap fun gw => if evalGuard caps cn cl gw.1 then writeToks cn gw.2 else []
+
+/-- The first case of a `switch` whose guard holds. -/
+def firstCase (caps : Caps) (cn cl : CursorState) : List (List (Bool × String) × String) → List Tok
+  | [] => []
+  | gw :: rest => if evalGuard caps cn cl gw.1 then writeToks cn gw.2 else firstCase caps cn cl rest
+
+/-- `render(); Flush()` on the wire, over arbitrary extracted tables. -/
+def flushOf (pro cur epi : List (List (Bool × String) × String)) (caps : Caps) (cn cl : CursorState) (body : List Tok) : List Tok :=
+  if body.isEmpty then firstCase caps cn cl cur
+  else runGuarded caps cn cl pro ++ body ++ runGuarded caps cn cl epi
+
 end VaxisModel.Lemmas.RenderFacts
